@@ -20,6 +20,16 @@ FIRST = {  # what happened on the FIRST run against each change, before any stre
     "C10_2": "inconclusive (recording FS model had no exists/stat) -> symbolic pre-existing directory state",
     "C10_3": "missed (fresh manager per run) -> generate() history scenario",
     "C12_2": "would have been missed (no directly nested arrays) -> field added before the run",
+    "C01_r2_2": "inconclusive (violation found through decoy priming, but the primed replay ran in a process that had already used the schema) -> primed replays get their own fresh process",
+    "C02_r2_2": "as C01_r2_2",
+    "C03_r2_2": "as C01_r2_2 (generator-level cache)",
+    "C04_r2_2": "missed (every skeleton enum declared its maximum last) -> enum with the maximum declared first",
+    "C06_r2_1": "as C01_r2_2 (class-level cache in the layout encoder)",
+    "C06_r2_2": "missed by C06 (signal blocks are outside its family; C04 caught it) -> identity byte-order option on an 8-bit field next to derived-looking names",
+    "C08_r2_1": "inconclusive (replay used a fresh Logger, the symbolic run the shared default one) -> replay uses the public default",
+    "C09_r2_1": "timed out (a cached verifier accumulates checks, non-revealing cases get slow) -> cheap cases first, red runs stop at 10 violations",
+    "C14_r2_1": "missed by C14 (each concrete generation ran in its own process; C10's manager history caught it) -> warm-up generation in the same process",
+    "C20_r2_2": "inconclusive (Path.read_text bypassed the in-memory open stub) -> templates are written to a real scratch tree",
     "C05_2": "would have been missed (no plain signal named like an earlier binding's multiplexer) -> schema added before the run",
 }
 
